@@ -162,7 +162,9 @@ func ruleMapIterCond(c *Ctx, r *R) {
 // countPF: counts events saturating at 2 (states 0,1,2).
 func countExits(fn *ssa.Function, isEvent func(in ssa.Instruction) bool, reset func(in ssa.Instruction) (bool, func(count StateSet))) []pfExit {
 	pkg := rootFn(fn).Pkg
-	pf := &PF{N: 3, InScope: func(f *ssa.Function) bool { return rootFn(f).Pkg == pkg && f.Blocks != nil && f != fn && f.Parent() == nil }}
+	pf := &PF{N: 3, InScope: func(f *ssa.Function) bool {
+		return rootFn(f).Pkg == pkg && f.Blocks != nil && f != fn && f.Parent() == nil
+	}}
 	pf.Instr = func(f *ssa.Function, in ssa.Instruction, q int) (StateSet, bool) {
 		if isEvent(in) {
 			if q < 2 {
@@ -215,7 +217,10 @@ func ruleSlotAccounting(c *Ctx, r *R) {
 	}
 	for _, cs := range []cons{
 		{"parallel.mapIterator.Next", func(in ssa.Instruction) bool { return isFieldIncDec(in, "inFlight", -1) },
-			func(ret *ssa.Return) bool { k, ok := ret.Results[1].(*ssa.Const); return ok && k.Value != nil && k.Value.String() == "true" }},
+			func(ret *ssa.Return) bool {
+				k, ok := ret.Results[1].(*ssa.Const)
+				return ok && k.Value != nil && k.Value.String() == "true"
+			}},
 		{"parallel.mapStream.Next", func(in ssa.Instruction) bool {
 			snd, ok := in.(*ssa.Send)
 			rf := mapChansOf(c, "parallel.MapStream").readyField
